@@ -23,6 +23,24 @@ def main(tier, seed):
             rj['text'], rj['want'], rj['clause'], rj['position']),
             classifier={'kind': 'asmtext:' + str(rj['clause']), 'has_backslash': rj['has_backslash'], 'char': rj['char']},
             detail={k: repr(v) for k, v in rj.items()}))
+    # the programs of this check are valid by construction (they only declare, index, measure and write constants): a
+    # constant the compiler refuses does not reach the output either
+    from hv import runner, hidc_api
+    seen = set()
+    for rp in asmtext.REJECTED_PROGRAMS:
+        extra.append(common.Violation(PROP, 'valid program of string literals rejected: %s' % rp['error'][:160],
+                                      classifier={'kind': 'valid_constant_rejected', 'family': 'asmtext_compiled'},
+                                      detail={'source': rp['source'], 'error': rp['error'], 'args': [], 'w': 2, 's': 500, 'unchecked': False}))
+    for it in items:
+        if it.src in seen:
+            continue
+        seen.add(it.src)
+        ck, res = runner.compile_cached(it)
+        if isinstance(res, hidc_api.Rejected):
+            extra.append(common.Violation(PROP, 'valid program of constants rejected (%s): %s' % (it.meta.get('family'), str(res)[:160]),
+                                          classifier={'kind': 'valid_constant_rejected', 'family': it.meta.get('family')},
+                                          detail={'source': it.src, 'error': str(res), 'args': it.args, 'w': it.w, 's': it.s, 'unchecked': it.unchecked}))
+    cov['constant_programs_compiled'] = len(seen)
     return rt.standard(PROP, tier, seed, items,
                        'all 256 byte values in string and char literals, all pairs over 12 special bytes, escapes, random strings; '
                        'constant int/byte/bool/string arrays of lengths 0..40 global/local const/mutable; emitted .ascii and char '
